@@ -199,8 +199,75 @@ def predicate_unit(u) -> Stats:
     return st
 
 
+def scaled_verdict(fv, n: int):
+    """Superadditivity of a float game decided in exact rationals with the documented RELATIVE tolerance 1e-9:
+    True  - every split has excess <= 1e-12 * |v(U)| (nothing but rounding noise),
+    False - some split has excess > 1e-6 * |v(U)| (far outside the band),
+    None  - something in between: unconstrained."""
+    from fractions import Fraction
+    fr = [Fraction(x) for x in fv]
+    verdict = True
+    for u_ in range(1, 1 << n):
+        for a, b in A.proper_splits(u_):
+            ex = fr[a] + fr[b] - fr[u_]
+            if ex <= 0:
+                continue
+            mag = abs(fr[u_])
+            if ex > mag / 10 ** 6:
+                return False
+            if ex > mag / 10 ** 12:
+                verdict = None
+    return verdict
+
+
+def scale_unit(u) -> Stats:
+    """The superadditivity predicate is scale free (relative tolerance): lattice games in tiny units, in huge units, and additive
+    games with non-dyadic weights at huge scale (pure rounding noise)."""
+    _, lo, hi = u
+    from incomplete_cooperative.game_properties import is_sam, is_superadditive
+    st = Stats()
+    n = 3
+    vals = (-1, 0, 1, 2)
+    for idx in range(lo, hi):
+        v = [0] * 8
+        x = idx
+        for s in range(1, 8):
+            v[s] = vals[x % 4]
+            x //= 4
+        for scale in (2.0 ** -40, 1e-12, 1e9 / 7, 2.0 ** 30 / 3):
+            fv = [float(t * scale) for t in v]
+            want = scaled_verdict(fv, n)
+            if want is None:
+                continue
+            got = bool(is_superadditive(envs.full_game(fv)))
+            st.states += 1
+            st.transitions += 1
+            st.evals += 1
+            if got != want:
+                st.violation(f"[predicates n=3 scale={scale:g}] is_superadditive = {got} on {fv}; with the documented relative tolerance the verdict is {want} "
+                             f"(the same game in unit scale: {v})", n=n, kind="scaled", values=fv, expect=want)
+                if st.nviol >= 3:
+                    return st
+            st.nontrivial += 1
+    # additive games with non-dyadic weights at huge scale: superadditive up to rounding noise only
+    for k, w in enumerate(((1 / 3, 1 / 7, 1 / 11, 1 / 13), (0.1, 0.2, 0.3, 0.7), (1 / 3, -1 / 7, 2 / 9, -1 / 13))):
+        for unit in (1.0, 1e9, 1e12):
+            for m in (3, 4):
+                fv = [float(sum(w[i] * unit for i in range(m) if s >> i & 1)) for s in range(1 << m)]
+                want = scaled_verdict(fv, m)
+                if want is None:
+                    continue
+                got = bool(is_superadditive(envs.full_game(fv)))
+                st.evals += 1
+                st.states += 1
+                if got != want:
+                    st.violation(f"[predicates n={m}] is_superadditive = {got} on the additive game with weights {w[:m]} x {unit:g}; it is superadditive up to "
+                                 f"rounding noise (relative excess below 1e-12)", n=m, kind="scaled", values=fv, expect=want)
+    return st
+
+
 def dispatch(u) -> Stats:
-    return {"unary": unary_unit, "binary": binary_unit, "pred": predicate_unit}[u[0]](u)
+    return {"unary": unary_unit, "binary": binary_unit, "pred": predicate_unit, "scale": scale_unit}[u[0]](u)
 
 
 def run(run: Run) -> None:
@@ -225,9 +292,11 @@ def run(run: Run) -> None:
         us += [("pred", 3, (-2, -1, 0), i, min(i + 243, tot), True) for i in range(0, tot, 243)]
         tot = 5 ** 7
         us += [("pred", 3, (-2, -1, 0, 1, 3), i, min(i + 3125, tot), False) for i in range(0, tot, 3125)]
+    us += [("scale", i, min(i + 2048, 4 ** 7)) for i in range(0, 4 ** 7, 2048)]
     run.rule = ("every coalition for n=1..10 (unary operations, sub-/super-coalition enumeration: 3^n elements per n), every ordered pair for n<=6 "
                 "(binary operators), object API vs id-array API vs Python frozenset; predicates on ALL games over {-1,0,1,2}^7 (n=3), {0,1}^15 and "
-                "{0,-1}^15 (n=4), supermodularity on {0,1,2}^7, plus relative-1e-6 perturbations of tight grand-coalition constraints. "
+                "{0,-1}^15 (n=4), supermodularity on {0,1,2}^7, plus relative-1e-6 perturbations of tight grand-coalition constraints; the whole n=3 lattice again in tiny and huge units and additive "
+                "games with non-dyadic weights at scales 1, 1e9, 1e12 (the tolerance is relative). "
                 "non-trivial = proper non-empty coalitions / distinct pairs / games where the predicates disagree with each other")
     run.bounds = {"n_unary": [1, 10 if quick else 12], "n_binary": [1, 6 if quick else 7], "object_enumeration_up_to_n": 8 if quick else 10}
     run.assumptions = ["the inside of the documented 1e-9 relative band of is_superadditive is left unconstrained"]
@@ -245,7 +314,7 @@ def replay(doc: dict):
         from incomplete_cooperative.game_properties import is_monotone_decreasing, is_sam, is_superadditive
         v = doc["values"]
         g = envs.full_game(v)
-        if kind == "predicate-perturbed":
+        if kind in ("predicate-perturbed", "scaled"):
             got = bool(is_superadditive(g))
             return got != doc["expect"], f"is_superadditive({v}) = {got}, expected {doc['expect']}"
         sa, mono = textbook([x for x in v], n)
